@@ -8,6 +8,7 @@ import (
 	"go/ast"
 	"go/constant"
 	"go/token"
+	"go/types"
 	"sort"
 
 	"golang.org/x/tools/go/ssa"
@@ -152,24 +153,414 @@ func (t *configTabs) profileNames() []string {
 	return ns
 }
 
-// allowListsFor: the names of the lists GetConf may put on the allow side for a profile, with their contents.
-func (t *configTabs) allowLists(profile string) map[string][]string {
-	out := map[string][]string{}
-	for _, n := range []string{"defaultSyscallAllows", "archSyscallAllows", "defaultProcSyscalls"} {
-		if l, ok := t.Lists[n]; ok {
-			out[n] = l
+// ---- a small evaluator for the string lists GetConf assembles ----
+//
+// strSet over-approximates a []string value: the literal strings it may contain and the symbolic parts (fields of
+// the selected profile, named by their field name, e.g. "ExtraAllow").
+type strSet struct {
+	lits map[string]bool
+	syms map[string]bool
+}
+
+func newStrSet() *strSet { return &strSet{lits: map[string]bool{}, syms: map[string]bool{}} }
+func (s *strSet) add(o *strSet) *strSet {
+	if o != nil {
+		for k := range o.lits {
+			s.lits[k] = true
+		}
+		for k := range o.syms {
+			s.syms[k] = true
 		}
 	}
-	if p, ok := t.Profiles[profile]; ok {
-		out["profile "+profile+".ExtraAllow"] = p.ExtraAllow
+	return s
+}
+func (s *strSet) clone() *strSet { return newStrSet().add(s) }
+
+type listEval struct {
+	info  *types.Info
+	vars  map[string]ast.Expr      // package-level variable initialisers
+	funcs map[string]*ast.FuncDecl // package-level functions
+	cache map[string]*strSet
+	depth int
+}
+
+func newListEval(info *types.Info, files []*ast.File) *listEval {
+	e := &listEval{info: info, vars: map[string]ast.Expr{}, funcs: map[string]*ast.FuncDecl{}, cache: map[string]*strSet{}}
+	for _, f := range files {
+		for _, d := range f.Decls {
+			switch x := d.(type) {
+			case *ast.FuncDecl:
+				if x.Recv == nil {
+					e.funcs[x.Name.Name] = x
+				}
+			case *ast.GenDecl:
+				if x.Tok != token.VAR {
+					continue
+				}
+				for _, sp := range x.Specs {
+					vs := sp.(*ast.ValueSpec)
+					for i, nm := range vs.Names {
+						if i < len(vs.Values) {
+							e.vars[nm.Name] = vs.Values[i]
+						}
+					}
+				}
+			}
+		}
+	}
+	return e
+}
+
+type listEnv map[string]*strSet
+
+func (v listEnv) clone() listEnv {
+	n := listEnv{}
+	for k, s := range v {
+		n[k] = s.clone()
+	}
+	return n
+}
+func (v listEnv) merge(o listEnv) {
+	for k, s := range o {
+		if v[k] == nil {
+			v[k] = newStrSet()
+		}
+		v[k].add(s)
+	}
+}
+
+func (e *listEval) expr(x ast.Expr, env listEnv) *strSet {
+	out := newStrSet()
+	if x == nil {
+		return out
+	}
+	if tv, ok := e.info.Types[x]; ok && tv.Value != nil && tv.Value.Kind() == constant.String {
+		out.lits[constant.StringVal(tv.Value)] = true
+		return out
+	}
+	switch t := x.(type) {
+	case *ast.ParenExpr:
+		return e.expr(t.X, env)
+	case *ast.CompositeLit:
+		for _, el := range t.Elts {
+			if kv, ok := el.(*ast.KeyValueExpr); ok {
+				out.add(e.expr(kv.Value, env))
+			} else {
+				out.add(e.expr(el, env))
+			}
+		}
+	case *ast.Ident:
+		if s, ok := env[t.Name]; ok {
+			return s.clone()
+		}
+		if s, ok := e.cache[t.Name]; ok {
+			return s.clone()
+		}
+		if init, ok := e.vars[t.Name]; ok && e.depth < 8 {
+			e.depth++
+			s := e.expr(init, listEnv{})
+			e.depth--
+			e.cache[t.Name] = s
+			return s.clone()
+		}
+	case *ast.SelectorExpr:
+		out.syms[t.Sel.Name] = true
+	case *ast.SliceExpr:
+		return e.expr(t.X, env)
+	case *ast.IndexExpr:
+		return e.expr(t.X, env)
+	case *ast.CallExpr:
+		rs := e.call(t, env)
+		if len(rs) > 0 {
+			return rs[0]
+		}
 	}
 	return out
 }
 
-// checkConfigTables: consistency of the literal policy tables the command ships.
+// call evaluates a call and returns one set per result.
+func (e *listEval) call(c *ast.CallExpr, env listEnv) []*strSet {
+	var args []*strSet
+	for _, a := range c.Args {
+		args = append(args, e.expr(a, env))
+	}
+	if id, ok := c.Fun.(*ast.Ident); ok {
+		switch id.Name {
+		case "append":
+			s := newStrSet()
+			for _, a := range args {
+				s.add(a)
+			}
+			return []*strSet{s}
+		case "make", "new", "len", "cap":
+			return []*strSet{newStrSet()}
+		}
+		if fd, ok := e.funcs[id.Name]; ok && fd.Body != nil && e.depth < 8 {
+			fenv := listEnv{}
+			i := 0
+			for _, fl := range fd.Type.Params.List {
+				for _, nm := range fl.Names {
+					if i < len(args) {
+						fenv[nm.Name] = args[i]
+					}
+					i++
+				}
+			}
+			if fd.Type.Results != nil {
+				for _, fl := range fd.Type.Results.List {
+					for _, nm := range fl.Names {
+						fenv[nm.Name] = newStrSet()
+					}
+				}
+			}
+			e.depth++
+			var rets [][]*strSet
+			e.block(fd.Body.List, fenv, &rets, fd)
+			e.depth--
+			n := 0
+			if fd.Type.Results != nil {
+				n = fd.Type.Results.NumFields()
+			}
+			out := make([]*strSet, n)
+			for i := range out {
+				out[i] = newStrSet()
+			}
+			for _, r := range rets {
+				for i := range r {
+					if i < n {
+						out[i].add(r[i])
+					}
+				}
+			}
+			return out
+		}
+	}
+	// unknown callee: any argument may flow into any result
+	s := newStrSet()
+	for _, a := range args {
+		s.add(a)
+	}
+	return []*strSet{s, s.clone(), s.clone(), s.clone()}
+}
+
+func (e *listEval) assign(lhs []ast.Expr, rhs []ast.Expr, env listEnv) {
+	var vals []*strSet
+	if len(rhs) == 1 && len(lhs) > 1 {
+		if c, ok := rhs[0].(*ast.CallExpr); ok {
+			vals = e.call(c, env)
+		} else {
+			v := e.expr(rhs[0], env)
+			for range lhs {
+				vals = append(vals, v.clone())
+			}
+		}
+	} else {
+		for _, r := range rhs {
+			vals = append(vals, e.expr(r, env))
+		}
+	}
+	for i, l := range lhs {
+		if id, ok := l.(*ast.Ident); ok && id.Name != "_" && i < len(vals) && vals[i] != nil {
+			env[id.Name] = vals[i]
+		}
+		// m[k] = v: the container may now hold k (a set kept as map keys) and v
+		if ix, ok := l.(*ast.IndexExpr); ok {
+			if id, ok := ix.X.(*ast.Ident); ok {
+				if env[id.Name] == nil {
+					env[id.Name] = newStrSet()
+				}
+				env[id.Name].add(e.expr(ix.Index, env))
+				if i < len(vals) {
+					env[id.Name].add(vals[i])
+				}
+			}
+		}
+	}
+}
+
+func (e *listEval) block(stmts []ast.Stmt, env listEnv, rets *[][]*strSet, fd *ast.FuncDecl) {
+	for _, s := range stmts {
+		switch t := s.(type) {
+		case *ast.AssignStmt:
+			e.assign(t.Lhs, t.Rhs, env)
+		case *ast.DeclStmt:
+			if gd, ok := t.Decl.(*ast.GenDecl); ok {
+				for _, sp := range gd.Specs {
+					if vs, ok := sp.(*ast.ValueSpec); ok {
+						var lhs []ast.Expr
+						for _, nm := range vs.Names {
+							lhs = append(lhs, nm)
+							if len(vs.Values) == 0 {
+								env[nm.Name] = newStrSet()
+							}
+						}
+						if len(vs.Values) > 0 {
+							e.assign(lhs, vs.Values, env)
+						}
+					}
+				}
+			}
+		case *ast.IfStmt:
+			if t.Init != nil {
+				e.block([]ast.Stmt{t.Init}, env, rets, fd)
+			}
+			a := env.clone()
+			e.block(t.Body.List, a, rets, fd)
+			b := env.clone()
+			if t.Else != nil {
+				e.block([]ast.Stmt{t.Else}, b, rets, fd)
+			}
+			for k := range env {
+				delete(env, k)
+			}
+			env.merge(a)
+			env.merge(b)
+		case *ast.BlockStmt:
+			e.block(t.List, env, rets, fd)
+		case *ast.ForStmt:
+			if t.Init != nil {
+				e.block([]ast.Stmt{t.Init}, env, rets, fd)
+			}
+			e.block(t.Body.List, env, rets, fd)
+			e.block(t.Body.List, env, rets, fd)
+		case *ast.RangeStmt:
+			src := e.expr(t.X, env)
+			for _, kv := range []ast.Expr{t.Key, t.Value} {
+				if id, ok := kv.(*ast.Ident); ok && id.Name != "_" {
+					env[id.Name] = src.clone()
+				}
+			}
+			e.block(t.Body.List, env, rets, fd)
+			e.block(t.Body.List, env, rets, fd)
+		case *ast.SwitchStmt:
+			if t.Init != nil {
+				e.block([]ast.Stmt{t.Init}, env, rets, fd)
+			}
+			acc := env.clone()
+			for _, cc := range t.Body.List {
+				if cl, ok := cc.(*ast.CaseClause); ok {
+					x := env.clone()
+					e.block(cl.Body, x, rets, fd)
+					acc.merge(x)
+				}
+			}
+			env.merge(acc)
+		case *ast.ReturnStmt:
+			var r []*strSet
+			if len(t.Results) == 0 && fd != nil && fd.Type.Results != nil {
+				for _, fl := range fd.Type.Results.List {
+					for _, nm := range fl.Names {
+						r = append(r, env[nm.Name])
+					}
+				}
+			} else if len(t.Results) == 1 {
+				if c, ok := t.Results[0].(*ast.CallExpr); ok {
+					r = e.call(c, env)
+				} else {
+					r = []*strSet{e.expr(t.Results[0], env)}
+				}
+			} else {
+				for _, x := range t.Results {
+					r = append(r, e.expr(x, env))
+				}
+			}
+			*rets = append(*rets, r)
+		}
+	}
+}
+
+// getConfSides evaluates GetConf and returns what may end up in its result #idx (literals and profile fields).
+func getConfResult(p *Prog, idx int) (*strSet, string) {
+	pk := p.Pkg("cmd/runprog/config")
+	if pk == nil {
+		return nil, "package cmd/runprog/config not loaded"
+	}
+	e := newListEval(pk.TypesInfo, pk.Syntax)
+	fd := e.funcs["GetConf"]
+	if fd == nil || fd.Body == nil {
+		return nil, "GetConf not found"
+	}
+	env := listEnv{}
+	for _, fl := range fd.Type.Params.List {
+		for _, nm := range fl.Names {
+			env[nm.Name] = newStrSet()
+		}
+	}
+	var rets [][]*strSet
+	e.block(fd.Body.List, env, &rets, fd)
+	out := newStrSet()
+	n := 0
+	for _, r := range rets {
+		if idx < len(r) && r[idx] != nil {
+			out.add(r[idx])
+			n++
+		}
+	}
+	if n == 0 {
+		return nil, "no return of GetConf evaluated"
+	}
+	return out, ""
+}
+
+// allowResultIndex: which result of GetConf the command hands to the filter builder as its allow list.
+func allowResultIndex(p *Prog) int {
+	gc := p.Func("cmd/runprog/config", "GetConf")
+	if gc == nil {
+		return -1
+	}
+	for _, site := range staticCallSites(gc) {
+		fn := site.Parent()
+		for _, b := range fn.Blocks {
+			for _, in := range b.Instrs {
+				st, ok := in.(*ssa.Store)
+				if !ok {
+					continue
+				}
+				fa, ok := st.Addr.(*ssa.FieldAddr)
+				if !ok || fieldName(fa.X.Type(), fa.Field) != "Allow" {
+					continue
+				}
+				idx := -1
+				seen := map[ssa.Value]bool{}
+				var walk func(v ssa.Value, d int)
+				walk = func(v ssa.Value, d int) {
+					if d > 12 || seen[v] || idx >= 0 {
+						return
+					}
+					seen[v] = true
+					switch x := v.(type) {
+					case *ssa.Extract:
+						if x.Tuple == site.(ssa.Value) {
+							idx = x.Index
+						}
+					case *ssa.Phi:
+						for _, e := range x.Edges {
+							walk(e, d+1)
+						}
+					case *ssa.Call:
+						if len(x.Call.Args) > 0 {
+							walk(x.Call.Args[0], d+1)
+						}
+					case *ssa.Slice:
+						walk(x.X, d+1)
+					}
+				}
+				walk(st.Val, 0)
+				if idx >= 0 {
+					return idx
+				}
+			}
+		}
+	}
+	return -1
+}
+
+// checkConfigTables: consistency of the literal policy tables the command ships, judged on what GetConf can put on
+// the allow side (its result that the command hands to the filter builder as Allow): literal strings reachable
+// through appends, helper functions and package-level tables, plus — per profile — the profile fields it appends.
 //   - what="counted": a system call that has a budget is on no allow list GetConf can combine with it (an allow-listed
 //     call is let through by the filter and never reaches the counter);
-//   - what="group": no allow list contains a call by which a process leaves the process group or session of its run
+//   - what="group": the allow side contains no call by which a process leaves the process group or session of its run
 //     (the tracer waits for, kills and reaps "-pgid": a process outside the group is neither traced to its end nor killed).
 func checkConfigTables(c *Check, rule, what string) {
 	p := c.P
@@ -179,28 +570,41 @@ func checkConfigTables(c *Check, rule, what string) {
 		c.Undecided(rule, "cmd/runprog/config:tables", "-", fmt.Sprintf("tables not readable: %v", t.Problems))
 		return
 	}
-	// the lists are the ones GetConf reads
-	used := map[string]bool{}
-	for _, b := range gc.Blocks {
-		for _, in := range b.Instrs {
-			for _, op := range in.Operands(nil) {
-				if g, ok := (*op).(*ssa.Global); ok {
-					used[g.Name()] = true
+	idx := allowResultIndex(p)
+	if idx < 0 {
+		c.Undecided(rule, "cmd/runprog/config.GetConf:allow-result", p.Pos(gc.Pos()), "cannot tell which result of GetConf becomes the filter's allow list")
+		return
+	}
+	side, why := getConfResult(p, idx)
+	if side == nil || len(side.lits) < 10 {
+		c.Undecided(rule, "cmd/runprog/config.GetConf:allow-side", p.Pos(gc.Pos()), "the allow side of GetConf could not be evaluated: "+why)
+		return
+	}
+	allowOf := func(pn string) map[string]string {
+		m := map[string]string{}
+		for s := range side.lits {
+			m[s] = "the allow side assembled by GetConf"
+		}
+		if pt := t.Profiles[pn]; pt != nil {
+			if side.syms["ExtraAllow"] {
+				for _, s := range pt.ExtraAllow {
+					m[s] = "profile " + pn + ".ExtraAllow"
+				}
+			}
+			if side.syms["ExtraBan"] {
+				for _, s := range pt.ExtraBan {
+					m[s] = "profile " + pn + ".ExtraBan"
 				}
 			}
 		}
-	}
-	for _, n := range []string{"defaultSyscallAllows", "archSyscallAllows", "defaultProcSyscalls"} {
-		if !used[n] || t.Lists[n] == nil {
-			c.Undecided(rule, "cmd/runprog/config:"+n, p.Pos(gc.Pos()), "allow-side list "+n+" is not a literal read by GetConf")
-			return
-		}
+		return m
 	}
 	switch what {
 	case "counted":
 		n := 0
 		for _, pn := range t.profileNames() {
 			pt := t.Profiles[pn]
+			allowed := allowOf(pn)
 			var names []string
 			for k := range pt.ExtraCount {
 				names = append(names, k)
@@ -208,22 +612,9 @@ func checkConfigTables(c *Check, rule, what string) {
 			sort.Strings(names)
 			for _, k := range names {
 				n++
-				where := ""
-				lists := t.allowLists(pn)
-				var lns []string
-				for ln := range lists {
-					lns = append(lns, ln)
-				}
-				sort.Strings(lns)
-				for _, ln := range lns {
-					for _, s := range lists[ln] {
-						if s == k {
-							where = ln
-						}
-					}
-				}
-				c.Cond(where == "" && pt.ExtraCount[k] >= 0, rule, "config:"+pn+":counted("+k+")", p.Pos(pt.Pos), "budgeted call is on no allow list",
-					fmt.Sprintf("%s has a budget of %d in profile %s but is also on the allow list %s: the filter lets it through without consulting the counter, so it can be made any number of times", k, pt.ExtraCount[k], pn, where))
+				where := allowed[k]
+				c.Cond(where == "" && pt.ExtraCount[k] >= 0, rule, "config:"+pn+":counted("+k+")", p.Pos(pt.Pos), "budgeted call is not on the allow side",
+					fmt.Sprintf("%s has a budget of %d in profile %s but is also on %s: the filter lets it through without consulting the counter, so it can be made any number of times", k, pt.ExtraCount[k], pn, where))
 			}
 		}
 		if n == 0 {
@@ -231,32 +622,21 @@ func checkConfigTables(c *Check, rule, what string) {
 		}
 		c.Expect(rule, 2)
 	case "group":
-		escape := map[string]bool{"setpgid": true, "setsid": true}
-		lists := map[string][]string{}
-		for _, n := range []string{"defaultSyscallAllows", "archSyscallAllows", "defaultProcSyscalls"} {
-			lists[n] = t.Lists[n]
-		}
-		for _, pn := range t.profileNames() {
-			lists["profile "+pn+".ExtraAllow"] = t.Profiles[pn].ExtraAllow
-		}
-		var lns []string
-		for ln := range lists {
-			lns = append(lns, ln)
-		}
-		sort.Strings(lns)
-		for _, ln := range lns {
-			bad := ""
-			for _, s := range lists[ln] {
-				if escape[s] {
-					bad = s
+		escape := []string{"setpgid", "setsid"}
+		for _, pn := range append([]string{"(no profile)"}, t.profileNames()...) {
+			allowed := allowOf(pn)
+			bad, where := "", ""
+			for _, s := range escape {
+				if w, ok := allowed[s]; ok {
+					bad, where = s, w
 				}
 			}
 			pos := p.Pos(gc.Pos())
-			if tp, ok := t.ListPos[ln]; ok {
-				pos = p.Pos(tp)
+			if pt := t.Profiles[pn]; pt != nil {
+				pos = p.Pos(pt.Pos)
 			}
-			c.Cond(bad == "", rule, "config:"+ln+":no-group-escape", pos, "no call that leaves the process group / session is allowed",
-				bad+" is on the allow list "+ln+": a traced process can leave the process group of its run; the tracer waits for, kills and reaps by process group, so that process is neither followed to its end nor killed when the run ends")
+			c.Cond(bad == "", rule, "config:"+pn+":no-group-escape", pos, fmt.Sprintf("none of the %d allowed calls leaves the process group / session", len(allowed)),
+				bad+" is on "+where+": a traced process can leave the process group of its run; the tracer waits for, kills and reaps by process group, so that process is neither followed to its end nor killed when the run ends")
 		}
 		c.Expect(rule, 4)
 	}
